@@ -50,12 +50,17 @@ def run(ctx):
         r = ctx.mc("mc/MC_Order.tla", cfgp, name="MC_Order[%s]" % prof, workers=1)
         if r.violated:
             raise core.Machinery("ordering catalogue violates its domain assumption: %s" % r.violated)
-        orders = json.loads(core.parse_tagged(r.out, "ORDERS")[0][0])
+        alts = json.loads(core.parse_tagged(r.out, "ORDERS")[0][0])       # per patching entry: alternative ordering rulebooks
+        orders, where = [], []
+        for k, al in enumerate(alts, 1):
+            for o in al:
+                orders.append(o)
+                where.append(k)
         aux = ctx.scratch + "/aux_order_%s.json" % prof
         json.dump({"rbs": cat.rbs, "ords": orders}, open(aux, "w"))
         recs = []
-        for k in range(1, len(cat.entries) + 1):
-            otext = "\n".join(order_text(orders[k - 1])) + "\n"
+        for oi, k in enumerate(where, 1):
+            otext = "\n".join(order_text(orders[oi - 1])) + "\n"
             rb = dict(cat.compiled[k - 1])
             rb["ordering"] = compile_ordering_text(otext, cat.vendor)
             pairs, _ = cat.pairs(k, limit, rnd)
@@ -71,9 +76,9 @@ def run(ctx):
                     finally:
                         lp.PatchTree.sort = orig
                 except Exception as e:
-                    recs.append({"id": "%s-%s-%d" % (prof, cat.names[k - 1], len(recs)), "kind": "patch", "rb": k, "pt": [], "upt": [], "exc": repr(e)})
+                    recs.append({"id": "%s-%s-%d" % (prof, cat.names[k - 1], len(recs)), "kind": "patch", "rb": k, "ord": oi, "pt": [], "upt": [], "exc": repr(e)})
                     continue
-                rec = {"id": "%s-%s-%d" % (prof, cat.names[k - 1], len(recs)), "kind": "patch", "rb": k, "pt": pt_json(pt), "upt": pt_json(upt),
+                rec = {"id": "%s-%s-%d" % (prof, cat.names[k - 1], len(recs)), "kind": "patch", "rb": k, "ord": oi, "pt": pt_json(pt), "upt": pt_json(upt),
                        "old": o, "new": n}
                 recs.append(rec)
                 if len(rec["pt"]) >= 2 or any(len(i["kids"]) >= 2 for i in rec["pt"]):
@@ -82,8 +87,14 @@ def run(ctx):
             cs = cat.configs[k]
             for c in (cs if len(cs) <= (150 if quick else 3000) else rnd.sample(cs, 150 if quick else 3000)):
                 # shuffle every level: the input of order_config is arbitrary generator output
+                # ... and may hold negated lines too: some rows get their negated twin (equal-rank removals must not be disturbed)
                 def shuf(t):
                     items = [{"row": n["row"], "kids": shuf(n["kids"])} for n in t]
+                    have = {tuple(n["row"]) for n in t}
+                    for n in t:
+                        neg = [cat.prefix] + n["row"]
+                        if n["row"][0] != cat.prefix and tuple(neg) not in have and rnd.random() < 0.4:
+                            items.append({"row": neg, "kids": []})
                     rnd.shuffle(items)
                     return items
                 t = shuf(c)
@@ -91,9 +102,9 @@ def run(ctx):
                     out = orderer.order_config(cases.tree(t))
                     out2 = orderer.order_config(out)
                 except Exception as e:
-                    recs.append({"id": "%s-%s-c%d" % (prof, cat.names[k - 1], len(recs)), "kind": "config", "rb": k, "t": t, "out": [], "out2": [], "exc": repr(e)})
+                    recs.append({"id": "%s-%s-c%d" % (prof, cat.names[k - 1], len(recs)), "kind": "config", "rb": k, "ord": oi, "t": t, "out": [], "out2": [], "exc": repr(e)})
                     continue
-                recs.append({"id": "%s-%s-c%d" % (prof, cat.names[k - 1], len(recs)), "kind": "config", "rb": k, "t": t, "out": cases.jtree(out),
+                recs.append({"id": "%s-%s-c%d" % (prof, cat.names[k - 1], len(recs)), "kind": "config", "rb": k, "ord": oi, "t": t, "out": cases.jtree(out),
                              "out2": cases.jtree(out2)})
         ctx.count(len(recs))
         ctx.sample({"profile": prof, "ordering": order_text(orders[0]), "patch": recs[len(recs) // 3].get("pt")}, limit=2)
@@ -105,7 +116,7 @@ def run(ctx):
                 ctx.reject(rec["id"], "annet raised: " + rec["exc"], rec, None)
             elif v != "ok":
                 rec["profile"] = prof
-                rec["ordering_text"] = order_text(orders[rec["rb"] - 1])
+                rec["ordering_text"] = order_text(orders[rec["ord"] - 1])
                 ctx.reject(rec["id"], v, rec, signature_of(rec, v))
     # ---- shipped *.order files: independence of unrelated lines (metamorphic), order_config laws on corpus trees
     from annet import api
